@@ -48,6 +48,10 @@ def scenario(rng):
     libs.append("(define-library (lib clobber) (import (lib counter) (scheme base)) (export clobber!) (begin (define (clobber!) (set! next! (lambda () 'clobbered)) (set! reset! 5) 'done)))")
     have["user"] = ["use1!", "double"]
     have["clobber"] = ["clobber!"]
+    if rng.random() < 0.5:
+        # a library whose BODY advances the counter when it is instantiated (once per program, whichever declaration reaches it first - also one that fails)
+        libs.append("(define-library (lib boot) (import (scheme base) (lib counter)) (export booted) (begin (define booted (list 'booted (next!)))))")
+        have["boot"] = ["booted"]
     if rng.random() < 0.7:
         order2 = "(lib counter) (scheme base) (lib user)" if first else "(scheme base) (lib user) (lib counter)"
         libs.append("(define-library (lib user two) (import %s) (export use2!) (begin (define (use2!) (list 'u2 (car (cdr (use1!))) (next!)))))" % order2)
@@ -117,7 +121,10 @@ def scenario(rng):
     groups = [imports[a:b] for a, b in zip([0] + cuts, cuts + [len(imports)])]
     failing = None
     if rng.random() < 0.35:
-        failing = rng.choice(["(import (lib nope))", "(import (lib cyc a))", "(import (only (lib nope) x))"])
+        failing = rng.choice(["(import (lib nope))", "(import (lib cyc a))", "(import (only (lib nope) x))",
+                              # import sets that succeed (and instantiate their libraries) stand before the one that fails: nothing is bound, the instances stay
+                              "(import (lib counter) (lib nope))", "(import (lib user) (only (lib nope) x))", "(import (prefix (lib clobber) w-) (lib counter) (lib nope))"]
+                             + (["(import (lib boot) (lib nope))", "(import (lib boot) (lib cyc a))"] if "boot" in have else []))
         if "cyc" in failing:
             libs.append("(define-library (lib cyc a) (import (scheme base) (lib counter) (lib cyc b)) (export ca) (begin (define ca 1)))")
             libs.append("(define-library (lib cyc b) (import (scheme base) (lib cyc a)) (export cb) (begin (define cb 2)))")
@@ -169,7 +176,7 @@ def scenario(rng):
         elif c < 0.92 and "leak" in avail:
             forms.append("(%s)" % avail["leak"])
         else:
-            for nm in ("high", "top", "ra", "rb", "rd", "k"):
+            for nm in ("high", "top", "ra", "rb", "rd", "k", "booted"):
                 if nm in avail and rng.random() < 0.5:
                     forms.append(avail[nm])
             forms.append(rng.choice(["(+ 2 3)", "(car '(1 2))", "(* 2 3)", "(list %s)" % " ".join(sorted(set(avail.values()))[:0] or ["1"])]))
@@ -223,7 +230,7 @@ def run(tier, seed):
                 nimp = 0
                 while nimp < len(forms) and forms[nimp].startswith("(import"):
                     nimp += 1
-                others = [(l, t) for l, t in zip(L, libs) if [x.name for x in l[1]] not in (["lib", "counter"],) and "cyc" not in t]
+                others = [(l, t) for l, t in zip(L, libs) if [x.name for x in l[1]] not in (["lib", "counter"], ["lib", "boot"]) and "cyc" not in t]     # (not the library whose body has an effect: registering it again lets the body run again)
                 if nimp >= 2 and others and (i // 3) % 2 == 0:
                     # ... or a library that IS already registered (not the counter) is registered once more, with the same source, between two of
                     # the program's import declarations: nothing a program can observe changes
